@@ -114,6 +114,59 @@ def run(ctx):
                 n.lineno,
             )
         r4.good(f"{m.rel}:parse_tag_value:{which}-reachable", f"return {which}() gated only by the empty/JSON-prefix tests or a gate admitting all {len(witnesses)} numeral witnesses")
+    # ---- C34.5 the command-line splitter hands the whole remainder to the value parser -------------
+    # format_tag_value decides "bare or quoted" by asking parse_tag_value; the command line is parsed by parse_tag_key_value.  The two agree only
+    # if the value given to parse_tag_value is everything after the first '=' -- including newlines and further '=' characters.
+    r5 = ctx.rule("C34.5", "parse_tag_key_value passes everything after the first '=' to parse_tag_value", floor=1)
+    import re as _re5
+
+    kv = m.func("parse_tag_key_value")
+    kp = kv.args.args[0].arg
+    pcalls = [c for c in calls_in(kv) if call_name(c) == "parse_tag_value" and c.args]
+    if not pcalls:
+        raise AnalysisError("parse_tag_key_value no longer calls parse_tag_value", "parse_tag_key_value")
+    WITNESS = ["k=v", "k=a=b", "k=line1\nline2", "k=\n", "k=v\n", "k= x ", "k="]
+    for c in pcalls:
+        a = c.args[0]
+        ok, why = None, ""
+        if isinstance(a, ast.Name):
+            defs = [x for x in ast.walk(kv) if isinstance(x, ast.Assign) and any(a.id in [n.id for n in ast.walk(t) if isinstance(n, ast.Name)] for t in x.targets)]
+            if len(defs) == 1 and isinstance(defs[0].value, ast.Call) and isinstance(defs[0].value.func, ast.Attribute):
+                d = defs[0].value
+                if d.func.attr == "split" and src(d.func.value) == kp and [src(x) for x in d.args] == ["'='", "1"]:
+                    ok = True
+                elif d.func.attr == "partition" and src(d.func.value) == kp and [src(x) for x in d.args] == ["'='"]:
+                    ok = True
+        if ok is None and isinstance(a, ast.Call) and isinstance(a.func, ast.Attribute) and a.func.attr == "group" and isinstance(a.func.value, ast.Name):
+            mv = a.func.value.id
+            mdefs = [x.value for x in ast.walk(kv) if isinstance(x, ast.Assign) and any(isinstance(t, ast.Name) and t.id == mv for t in x.targets)]
+            if len(mdefs) == 1 and isinstance(mdefs[0], ast.Call) and isinstance(mdefs[0].func, ast.Attribute) and mdefs[0].func.attr in ("match", "fullmatch", "search"):
+                how = mdefs[0].func.attr
+                pat = _gate_pattern(m, f"{src(mdefs[0].func.value)}.{how}({kp})", kp) if src(mdefs[0].func.value) != "re" else None
+                if pat is None and src(mdefs[0].func.value) == "re" and mdefs[0].args:
+                    ps = const_str(mdefs[0].args[0])
+                    pat = (_re5.compile(ps), how) if ps else None
+                if pat is not None:
+                    rx, how = pat
+                    g = a.args[0].value if a.args and isinstance(a.args[0], ast.Constant) else 0
+                    wrong = []
+                    for w in WITNESS:
+                        mm = getattr(rx, how)(w)
+                        want = w.split("=", 1)[1]
+                        got = mm.group(g) if mm else None
+                        if got != want:
+                            wrong.append((w, got))
+                    ok = not wrong
+                    why = f"the pattern {rx.pattern!r} used with .{how}() yields {wrong[:3]} (input, value) instead of the remainder after the first '='"
+        if ok is None:
+            raise AnalysisError(f"parse_tag_key_value: the value `{src(a)}` is derived in a way this analysis does not know (not split('=', 1) / partition('=') / a constant regex group)", "parse_tag_key_value")
+        r5.check(
+            ok,
+            f"{m.rel}:parse_tag_key_value:value-is-remainder",
+            f"{why}: a string value that format_tag_value displays bare (because parse_tag_value(value) == value) is cut or altered when the displayed key=value text is parsed from the command line",
+            m.rel,
+            c.lineno,
+        )
 
 
 def _gate_pattern(m, fact: str, pp: str):
